@@ -90,6 +90,8 @@ type AuthSpec struct {
 	FailErr  *ErrSpec `json:"fail_err,omitempty"`
 	// FailTrue: the failing validator returns (ctx, true, err): an error is a failure whatever the boolean says
 	FailTrue bool `json:"fail_true,omitempty"`
+	// NilCtx: a rejecting / failing validator returns a nil context with its verdict
+	NilCtx bool `json:"nil_ctx,omitempty"`
 	// PanicPass: the validator panics when it is handed this password (non-empty): no session either
 	PanicPass string `json:"panic_pass,omitempty"`
 	// PerUser: every user is known, with the password Pass + ":" + user name
@@ -122,6 +124,9 @@ type MW struct {
 	Cancelable bool `json:"cancelable,omitempty"`
 	// NilCtx: the failing middleware returns (nil, err) - the usual way to write it - instead of (ctx, err)
 	NilCtx bool `json:"nil_ctx,omitempty"`
+	// Deadline: the middleware returns a context with a (far away) deadline - a session lifetime limit:
+	// what parsers and statements receive is derived from it and reports that deadline
+	Deadline bool `json:"deadline,omitempty"`
 }
 
 // Config of the server under test.
@@ -507,6 +512,9 @@ func (e *Env) stop() (serveErr error, ok bool) {
 	// end every client connection so that the per-connection goroutines (and
 	// their read buffers, 16 MiB each at the default limit) are released
 	e.mu.Lock()
+	for _, cancel := range e.cancels[-1] {
+		cancel() // deadline contexts handed out by middlewares
+	}
 	for _, c := range e.conns {
 		c.CloseWrite()
 	}
@@ -796,6 +804,9 @@ func (e *Env) validate(ctx context.Context, database, username, password string)
 		err := a.FailErr.Build()
 		errFields(&ev, err)
 		e.add(ev)
+		if a.NilCtx {
+			return nil, a.FailTrue, err
+		}
 		return ctx, a.FailTrue, err
 	case "accept":
 		ev.OpK = "accept"
@@ -804,6 +815,9 @@ func (e *Env) validate(ctx context.Context, database, username, password string)
 	}
 	ev.OpK = "reject"
 	e.add(ev)
+	if a.NilCtx {
+		return nil, false, nil
+	}
 	return ctx, false, nil
 }
 
@@ -829,6 +843,16 @@ func (e *Env) middleware(i int) wire.SessionHandler {
 			return ctx, err
 		}
 		e.add(ev)
+		if e.Cfg.MWs[i].Deadline {
+			var cancel context.CancelFunc
+			ctx, cancel = context.WithDeadline(ctx, time.Now().Add(24*time.Hour))
+			e.mu.Lock()
+			if e.cancels == nil {
+				e.cancels = map[int][]context.CancelFunc{}
+			}
+			e.cancels[-1] = append(e.cancels[-1], cancel) // released by Stop
+			e.mu.Unlock()
+		}
 		if e.Cfg.MWs[i].Cancelable {
 			var cancel context.CancelFunc
 			ctx, cancel = context.WithCancel(ctx)
